@@ -29,7 +29,7 @@ EXPLANATION = (
     "programs with failing destinations checked against a contiguity/uniqueness oracle."
 )
 ASSUMPTIONS = [
-    "uuid4() returns pairwise distinct strings without '@' (stubbed by a per-path counter)",
+    "uuid4() returns pairwise distinct strings without '@' (stubbed by a per-path counter, except in the real_uuid shards of E1 where the code under test draws its own task ids while the program re-seeds the global PRNG before every operation)",
     "time.time() returns a float (stubbed by a strictly increasing counter)",
 ]
 
